@@ -80,8 +80,8 @@ func runC04(r *R) {
 
 	trashFn := r.W.Fn(uvT + ".Trash")
 	// ---- R1 + R2
-	r.Rule("C04-R1", "UnixVolume.Trash: every Remove/Rename of the block path passes flock(OpenFile(p)) → Stat(p) after the lock → NOT time.Since(fi.ModTime()) < BlobSigningTTL", 2)
-	r.Rule("C04-R2", "UnixVolume.Trash: filesystem changes only when NOT ReadOnly and BlobTrash", 2)
+	r.Rule("C04-R1", "UnixVolume.Trash: every Remove/Rename of the block path passes flock(OpenFile(p)) → Stat(p) after the lock → NOT time.Since(fi.ModTime()) < BlobSigningTTL", 1)
+	r.Rule("C04-R2", "UnixVolume.Trash: filesystem changes only when NOT ReadOnly and BlobTrash", 1)
 	if fn := r.NeedFn("C04-R1", uvT+".Trash"); fn != nil {
 		targets := CallsIn(fn, owsT+".Remove", owsT+".Rename", "os.Remove", "os.Rename", "os.RemoveAll")
 		for _, t := range targets {
@@ -112,7 +112,7 @@ func runC04(r *R) {
 				continue
 			}
 			gs, _ := Guard(fn, stat.(ssa.Instruction), in, ErrNilC(stat))
-			ga, _ := Guard(fn, stat.(ssa.Instruction), in, NotC(LtC("time.Since(fi.ModTime()) < BlobSigningTTL", func(v ssa.Value) bool {
+			ga, _ := Guard(fn, stat.(ssa.Instruction), in, GeC("time.Since(fi.ModTime()) < BlobSigningTTL", func(v ssa.Value) bool {
 				c, ok := Resolve1(v).(*ssa.Call)
 				if !ok || CalleeName(c.Common()) != "time.Since" {
 					return false
@@ -122,7 +122,7 @@ func runC04(r *R) {
 					return false
 				}
 				return IsResultOfCall(Resolve1(mt.Common().Value), stat.Value(), 0)
-			}, ttlVP)))
+			}, ttlVP))
 			r.Check(okLock && gs && ga, "C04-R1", fn, name, t.Pos(),
 				"under flock(OpenFile(p)); Stat(p) after lock; guarded by NOT age<TTL of that Stat",
 				"removal not dominated by flock → fresh Stat → TTL test (lock="+boolS(okLock)+" staterr="+boolS(gs)+" ttl="+boolS(ga)+")")
@@ -133,7 +133,7 @@ func runC04(r *R) {
 	}
 
 	// ---- R3
-	r.Rule("C04-R3", "UnixVolume.Touch: success only via os.Chtimes(blockPath(loc), now, now) performed under flock on a descriptor opened on the same path; not when ReadOnly", 2)
+	r.Rule("C04-R3", "UnixVolume.Touch: success only via os.Chtimes(blockPath(loc), now, now) performed under flock on a descriptor opened on the same path; not when ReadOnly", 1)
 	if fn := r.NeedFn("C04-R3", uvT+".Touch"); fn != nil {
 		chs := CallsIn(fn, "os.Chtimes")
 		for _, ch := range chs {
@@ -165,7 +165,7 @@ func runC04(r *R) {
 	}
 
 	// ---- R4
-	r.Rule("C04-R4", "TrashItem: Volume.Trash only when NOT age(request mtime)<TTL, stored Mtime == requested BlockMtime (same volume, err nil), BlobTrash on; Lookup(uuid, needWrite=true)", 2)
+	r.Rule("C04-R4", "TrashItem: Volume.Trash only when NOT age(request mtime)<TTL, stored Mtime == requested BlockMtime (same volume, err nil), BlobTrash on; Lookup(uuid, needWrite=true)", 1)
 	if fn := r.NeedFn("C04-R4", ks+".TrashItem"); fn != nil {
 		for _, t := range CallsMatching(fn, func(n string, c *ssa.CallCommon) bool { return w.IsMethodOfIface(c, ks+".Volume", "Trash") }) {
 			in := t.(ssa.Instruction)
@@ -186,14 +186,14 @@ func runC04(r *R) {
 				c, ok := Resolve1(v).(*ssa.Call)
 				return ok && CalleeName(c.Common()) == "(time.Time).UnixNano" && IsResultOfCall(Resolve1(c.Call.Args[0]), mt.Value(), 0)
 			}))
-			gAge, _ := Guard(fn, nil, in, NotC(LtC("time.Since(reqMtime) < TTL", func(v ssa.Value) bool {
+			gAge, _ := Guard(fn, nil, in, GeC("time.Since(reqMtime) < TTL", func(v ssa.Value) bool {
 				c, ok := Resolve1(v).(*ssa.Call)
 				if !ok || CalleeName(c.Common()) != "time.Since" {
 					return false
 				}
 				u, ok := Resolve1(c.Call.Args[0]).(*ssa.Call)
 				return ok && CalleeName(u.Common()) == "time.Unix" && strings.Contains(Canon(u.Call.Args[1]), "BlockMtime")
-			}, ttlVP)))
+			}, ttlVP))
 			gBT, _ := Guard(fn, nil, in, TrueC("BlobTrash", CanonHas("BlobTrash{")))
 			r.Check(sameLoc && gErr && gEq && gAge && gBT, "C04-R4", fn, "call Volume.Trash", t.Pos(),
 				"guarded by age≥TTL, Mtime err nil, stored mtime == requested, BlobTrash",
@@ -259,10 +259,10 @@ func runC04(r *R) {
 					return ok && CalleeName(c.Common()) == "builtin.len" && same(c.Call.Args[0], fsm)
 				}, ConstIntVP(3)))
 				gE, _ := Guard(f, pi, in, ErrNilC(pi))
-				gD, _ := Guard(f, pi, in, NotC(LtC("now < deadline", func(v ssa.Value) bool {
+				gD, _ := Guard(f, pi, in, GeC("now < deadline", func(v ssa.Value) bool {
 					c, ok := Resolve1(v).(*ssa.Call)
 					return ok && CalleeName(c.Common()) == "(time.Time).Unix" && isTimeNow(c.Call.Args[0])
-				}, ResultVP(pi, 0))))
+				}, ResultVP(pi, 0)))
 				r.Check(g3 && gE && gD && fsm.Block().Dominates(in.Block()) && pi.Block().Dominates(in.Block()), "C04-R6", f, "call Remove(path)", t.Pos(),
 					"guarded by 3-group trash-name match, ParseInt ok, NOT deadline>now", "trash removal not guarded by (match="+boolS(g3)+" parse="+boolS(gE)+" deadline="+boolS(gD)+")")
 			}
@@ -273,9 +273,9 @@ func runC04(r *R) {
 	}
 
 	// ---- R7, R9, R10 over every function of unix_volume.go
-	r.Rule("C04-R7", "unix_volume.go deleters/renamers: only temp cleanup in WriteBlock, Trash (R1), EmptyTrash (R6), Untrash (source named <loc>.trash.*, destination blockPath(loc))", 5)
+	r.Rule("C04-R7", "unix_volume.go deleters/renamers: only temp cleanup in WriteBlock, Trash (R1), EmptyTrash (R6), Untrash (source named <loc>.trash.*, destination blockPath(loc))", 4)
 	r.Rule("C04-R9", "every Rename onto a block path is preceded by os.Chtimes(source, time.Now()) == nil (an acknowledged PUT is never later represented by an older timestamp)", 2)
-	r.Rule("C04-R10", "every Rename onto/away from, Remove of, or Chtimes of a block path is performed under flock on a descriptor opened on that block path (absent file = nothing to lock)", 4)
+	r.Rule("C04-R10", "every Rename onto/away from, Remove of, or Chtimes of a block path is performed under flock on a descriptor opened on that block path (absent file = nothing to lock)", 3)
 	for _, fn := range w.FuncsIn(ks) {
 		if w.fileOf(fn) != "unix_volume.go" {
 			continue
